@@ -173,8 +173,8 @@ def run(tier, replay=None):
     if r["violated"]:
         rep.violation("spec:" + r["violated"], "ProxyProtocol.tla itself violates %s" % r["violated"], r["out"][-4000:])
     if thorough:
-        vlib.require_actions_covered(r, ["Expect_Readable", "Relay_Readable", "Relay_BackWritable", "Send_BackWritable",
-                                         "Pipe_Forward", "Client_Write", "Timeout"])
+        vlib.require_actions_covered(r, ["Expect_Readable", "Relay_Readable", "Relay_BackWritable", "Send_Step",
+                                         "Pipe_Forward", "ClientStep", "Timeout"])
         # every single split position of every header class (2 segments), all byte positions
         r2 = vlib.tlc("ProxyProtocol", pp_cfg(wd, "pp_mc_all.cfg", [], tlv, [0, 1, 2, 3], 2, "all"), PID, workers=workers,
                       timeout=2400)
@@ -258,7 +258,7 @@ def run(tier, replay=None):
 
     # ---- 4. I->S -------------------------------------------------------------------------------
     trace = os.path.join(wd, "trace.ndjson")
-    runs = 400 if thorough else 70
+    runs = 1200 if thorough else 70
     dout = vlib.run_harness(bins["drive_tcp"], ["--seed", str(vlib.seed()), "--runs", str(runs), "--threads", "6",
                                                 "--big", "1" if thorough else "0", "--out", trace], timeout=2400)
     ds = [o for o in dout if o.get("kind") == "summary"]
